@@ -578,3 +578,27 @@ def unmarshal (B : HHmmBounds) (L : Layout) (bytes : Bytes) : Outcome (List Val)
     | (_, .panic) => .panic
 
 end Uhppote.Model
+
+namespace Uhppote.Model
+
+/-- `messages.UnmarshalRequest` / `UnmarshalResponse`: length, protocol id, table lookup, decode -/
+def dispatch (F : CodecFacts) (T : BCD.Tables) (B : HHmmBounds) (table : List (Nat × String))
+    (layouts : String → Option Layout) (b : Bytes) : Outcome (String × List Val) :=
+  if b.length ≠ 64 then .err
+  else if (b.getD 0 0).toNat ≠ 0x17 then .err
+  else match table.lookup (b.getD 1 0).toNat with
+    | none => .err
+    | some n =>
+      match layouts n with
+      | none => .err
+      | some L =>
+        match unmarshal F T B L b with
+        | .ok vs => .ok (n, vs)
+        | .err => .err
+        | .panic => .panic
+
+/-- `ControlState.String()`: a table indexed by the value, behind a range guard or not (T5) -/
+def renderControlState (tableLen : Nat) (guarded : Bool) (v : Int) : Outcome Unit :=
+  if guarded then .ok () else if 0 ≤ v ∧ v < tableLen then .ok () else .panic
+
+end Uhppote.Model
